@@ -89,13 +89,16 @@ def reqKind? : String → Option Kind
   | "rforget" => some .forget_channel
   | "rtipinfo" => some .get_heartbeat
   | "rheartbeat" => some .get_heartbeat
-  | "hsignlocal" => some .channel_request
+  | "hsignlocal" | "hfuture" => some .channel_request
+  | "hpoint" => some .channel_base_request
   | s => Kind.ofString? s
 
 /-- harness request name ↦ program of the generated front-end table (handler arm) it executes -/
 def reqArm? : String → Option String
   | "hval0" | "hval1" => some "Channel.ValidateCommitmentTx2"
   | "hsignlocal" => some "Channel.SignLocalCommitmentTx2"
+  | "hpoint" => some "Channel.GetPerCommitmentPoint2"
+  | "hfuture" => some "Channel.CheckFutureSecret"
   -- `node.with_channel(|chan| chan.sign_delayed_sweep(..))` is the whole lock behaviour of this arm
   | "sweep0" | "sweep1" => some "Channel.SignDelayedPaymentToUs"
   | "rprekeysend" => some "Root.PreapproveKeysend"
